@@ -32,4 +32,9 @@ CHECKS = {
   "note": "Partial: that net/url and a browser agree on the host of the raw string is differential testing against the harness's WHATWG rules, not a theorem. Trusted: net/url, regexp in front of the model.",
   "technique": "Coq proof of the decision layer over all strings + differential correspondence with WHATWG oracle",
  },
+ "C18": {
+  "text": "Theorems c18_escape_safe (for every byte string the HTML-escaped text contains no quote or angle bracket) and c18_hidden_input (whatever the URL normaliser in front does, the double-quoted VALUE attribute an HTML5 tokenizer reads from the hand-built hidden INPUT is exactly the escaped destination: it can neither end the attribute nor add one); obligation c18_raw_sinks over a regenerated table of every conversion to template.HTML/JS/URL/HTMLAttr (only literals, escaped values or base-64 may be concatenated). Correspondence: the VALUE attribute of really served login-failure, 2FA and authorize-login pages compared byte for byte with the model; canary payloads in every field, path and header of every route of the regenerated mux x 4 credentials x GET/POST, each HTML response tokenised with x/net/html.",
+  "note": "Partial: ordinary template fields rely on html/template auto-escaping (trusted library, probed with canaries, not modelled). Trusted: x/net/html tokenizer as HTML5 parser; extractor table.",
+  "technique": "Coq proof over all byte strings + regenerated sink table + byte-level correspondence + canary probing (support)",
+ },
 }
